@@ -13,7 +13,7 @@ import threading
 import time
 
 from vf import c09_worker, env, runner, tree
-from vf.gens import base, inputs
+from vf.gens import base, codecgen, inputs
 from vf.props import c17 as kwgen
 from vf.props import c20 as cli
 
@@ -246,6 +246,20 @@ def run_history(ctx, r):
         ctx.count("earlier_trees_rechecked")
         if dg(first) != d0:
             ctx.violation("repro:history:returned-tree-mutated", f"a tree returned earlier changed after later scans ({data[:80]!r})", case)
+        # values met inside this tree, scanned on their own by the re-used scanner and by a fresh one
+        vals = [bytes(n.value) for n in first if 0 < len(n.value) <= 2000][:40]
+        if vals:
+            for v in r.sample(vals, min(3, len(vals))):
+                ctx.count("history_comparisons")
+                ctx.count("node_values_rescanned")
+                try:
+                    a1, a2 = dg(md.scan(v)), dg(Multidecoder().scan(v))
+                except Exception:  # noqa: BLE001
+                    continue
+                if a1 != a2:
+                    ctx.violation("repro:history:value-seen-before", f"after {data[:60]!r} the re-used scanner gives a different tree than a "
+                                                                     f"fresh one for {v[:60]!r}, a value met inside the earlier result",
+                                  {"kind": "history2", "first": runner.hx(data), "data": runner.hx(v), "depth": None})
         earlier.append((data, depth, first, d0))
         if len(earlier) > 40:
             old = earlier.pop(0)
@@ -269,7 +283,8 @@ def run_threads(ctx, r):
         rounds = 0
         while not ctx.expired():
             rounds += 1
-            corpus = [next(r.choice(gens))[1][:1500] for _ in range(24)]
+            corpus = [next(r.choice(gens))[1][:1500] for _ in range(20)]
+            corpus += [codecgen.c13_xor_case(r)[0][:3000] for _ in range(6)]  # module-level helpers used by several decoders in a row
             corpus += corpus[:6]  # the same input concurrently in several threads
             case = {"kind": "threads", "datas": [runner.hx(c) for c in corpus]}
             if not ctx.begin(case):
@@ -360,6 +375,15 @@ def run_cli_dim(ctx, r, work):
 
 def replay(case, ctx):
     from multidecoder.multidecoder import Multidecoder
+
+    if case.get("kind") == "history2":
+        md = Multidecoder()
+        md.scan(runner.unhx(case["first"]))
+        v = runner.unhx(case["data"])
+        ctx.evaluated()
+        if dg(md.scan(v)) != dg(Multidecoder().scan(v)):
+            ctx.violation("repro:history:value-seen-before", "re-used scanner differs from a fresh one on a value met in an earlier result", case)
+        return
 
     if case.get("kind") in ("history", "hashseed", "dirorder", "dirorder-custom") and "data" in case:
         data = runner.unhx(case["data"])
